@@ -16,6 +16,7 @@ import (
 type SolverStats struct {
 	Queries, Sat, Unsat, Unknown int
 	Errors                       int
+	FirstError                   string
 	Time                         time.Duration
 }
 
@@ -212,6 +213,9 @@ func (s *Solver) readResult() string {
 		}
 		if strings.HasPrefix(line, "(error") {
 			s.stats.Errors++
+			if s.stats.FirstError == "" {
+				s.stats.FirstError = line
+			}
 			fmt.Fprintln(os.Stderr, "solver:", line)
 			if s.dead {
 				return "unknown"
